@@ -45,6 +45,14 @@ def run(tier, seed):
         e = m["event"]
         if "PANIC" in e.get("what", "") or e["ev"] == "Panic":
             chk.violation("panic:sk", "set %s: %s" % (m["set"], e.get("what", ""))[:400], dict(set=m["set"], event=e))
+    # 4. rare keys (t leaves [0,q) before the final reduction), found by search: keygen / derive / round trips on
+    #    exactly those seeds in this checked build (a range self-check that only such keys reach would fire here)
+    from concurrent.futures import ThreadPoolExecutor
+    sw = os.path.join(chk.workdir, "sw")
+    with ThreadPoolExecutor(max_workers=3) as ex:
+        list(ex.map(lambda s: vlib.drive(bindir, "sweeps", sets=s, seed=seed + 3, nkeys=500, nedge=60000 if tier == "quick" else 1000000, nedgefull=1, nsamplers=0, out=sw, timeout=7200), (44, 65, 87)))
+    common.validate_f(chk, {s: os.path.join(sw, "sweeps_%d.ndjson" % s) for s in (44, 65, 87)}, nproc=6, chunks_per_set=2,
+                      key_of=lambda m: "panic:rare-key:" + m["event"].get("loc", m["ev"]).split("/")[-1])
     common.mc_variants(chk, "MC_Bounds", (44, 65, 87), tier=tier, workers=2)
     chk.cov["evaluations"] = calls
     chk.cov["distinct_nontrivial"] = len(classes) * 3
